@@ -11,6 +11,8 @@ Proved for every payload, every split into Write calls (no bound on sizes):
   * `xerial_roundtrip_partial`  decoding the blocks that the REFERENCE reader (`Spec.parse`) finds in the
                                 writer's output gives back the payload
   * `xerial_unframed_single`    unframed mode emits exactly one block: `enc payload`
+  * `touch_exclusive`, `put_before_reset_counterexample`, `gen_close_order`   Put is the last touch (model + extracted
+                                statement order of every Close method)
   * `pool_inv`, `pool_no_sharing`, `close_idempotent`   pool protocol over all op sequences incl. repeated Close;
                                 `double_close_counterexample` for a Close that keeps its object (seeded C16-m2)
   * `reset_fresh`               a recycled reader/writer starts from the same state as a new one, whatever it
@@ -27,6 +29,7 @@ import KafkaVerif.Lemmas.Xerial
 import KafkaVerif.Lemmas.Pool
 import KafkaVerif.Lemmas.XerialReader
 import KafkaVerif.Gen.RecordConsts
+import KafkaVerif.Gen.CodecClose
 
 namespace KV.Props.C16
 open KV KV.RW KV.Model.Xerial KV.Spec.Xerial
@@ -203,7 +206,7 @@ open Model.Pool in
 /-- after EVERY sequence of NewReader/NewWriter, Close (also repeated Close of the same wrapper) and pool drops:
 no object is in the pool twice, none is in the pool while a live wrapper uses it, none is used by two wrappers -/
 theorem pool_inv (es : List PEv) (s : PState) (hf : faithful es = true) (h : run Model.Pool.init es = some s) : Inv s :=
-  inv_run es _ s hf inv_init h
+  (inv_run es _ s hf ⟨inv_init, rfl⟩ h).1
 
 open Model.Pool in
 /-- two writers/readers that are open at the same time never share an object; the pool holds no duplicates and
@@ -218,6 +221,40 @@ theorem pool_no_sharing (es : List PEv) (s : PState) (hf : faithful es = true) (
     have h1 : 0 < s.pool.count x := List.count_pos_iff.mpr hx
     have h2 : 0 < (live s).count x := List.count_pos_iff.mpr hl
     unfold occ at this; omega
+
+open Model.Pool in
+/-- "Put is the LAST touch": in every run of the protocol as coded, whenever a wrapper touches its object
+(Read / Write / Reset), that object is not in the pool, no other wrapper holds it, and nobody holds a dangling
+reference to anything — so no use of an object after its Put exists on any path -/
+theorem touch_exclusive (es : List PEv) (s : PState) (hf : faithful es = true) (h : run Model.Pool.init es = some s)
+    (hd : Nat) (x : Nat) (hx : s.handles[hd]? = some (some x)) :
+    step s (.touch hd) = some s ∧ x ∉ s.pool ∧ (live s).count x = 1 ∧ s.dangling = [] := by
+  have hi := inv_run es _ s hf ⟨inv_init, rfl⟩ h
+  have hmem : x ∈ live s := by
+    simp only [live, List.mem_filterMap, id]
+    exact ⟨some x, List.mem_of_getElem? hx, rfl⟩
+  have hpos : 0 < (live s).count x := List.count_pos_iff.mpr hmem
+  have hocc := (hi.1 x).1
+  unfold occ at hocc
+  refine ⟨by simp [step, hx], ?_, by omega, hi.2⟩
+  intro hp
+  have : 0 < s.pool.count x := List.count_pos_iff.mpr hp
+  omega
+
+open Model.Pool in
+/-- the seeded defect C16-m4 (Put before Reset): after the closer's Put another reader is handed the object, and the
+closer's late Reset — a touch through its dangling reference — lands on an object that is in use -/
+theorem put_before_reset_counterexample :
+    ∃ s, run Model.Pool.init [.acquire none, .putKeep 0, .acquire (some 0), .touchDangling 0] = some s
+      ∧ 0 ∈ s.dangling ∧ 0 ∈ live s := by
+  refine ⟨_, rfl, ?_, ?_⟩ <;> decide
+
+/-- extracted on every run from compress/{gzip,snappy,lz4,zstd}: in every Close method of a pooled wrapper the
+Put is the last statement touching the object, the wrapper forgets the object, and a Reset precedes the Put —
+what makes `close` an atomic, idempotent event of the protocol model above -/
+theorem gen_close_order :
+    Gen.CodecClose.closeFacts.length = 8 ∧
+    Gen.CodecClose.closeFacts.all (fun f => f.2.1 && f.2.2.1 && f.2.2.2) = true := by decide
 
 open Model.Pool in
 /-- `Close` is idempotent: closing a wrapper again changes nothing -/
